@@ -20,3 +20,10 @@ CHECKS["C11"] = props_c11.check
 
 from harness import props_c12
 CHECKS["C12"] = props_c12.check
+
+from harness import props_cli
+CHECKS["C19"] = props_cli.check_c19
+CHECKS["C20"] = props_cli.check_c20
+
+from harness import props_c18
+CHECKS["C18"] = props_c18.check
